@@ -42,12 +42,18 @@ pub enum Step {
     /// a document deep in the workspace (absolute path of 150-400 bytes): open, add words to the
     /// file and user dictionaries, save, close
     DeepPath { shape: u8, text: u8 },
+    /// the client starts answering configuration requests with other dictionary paths, without a
+    /// change notification (the server pulls the configuration on every document update)
+    SilentPaths,
 }
 
 #[derive(Debug, Clone, Serialize, Deserialize, PartialEq, Eq, Hash)]
 pub struct Session {
     pub steps: Vec<Step>,
     pub tcp: bool,
+    /// the configured user dictionary is a relative symbolic link to a file elsewhere (dotfiles)
+    #[serde(default)]
+    pub symlinked_user_dict: bool,
 }
 
 const DOCS: [(&str, &str); 4] = [("a.md", "markdown"), ("b.txt", "plaintext"), ("c.rs", "rust"), ("d.html", "html")];
@@ -181,13 +187,47 @@ pub fn audit(trace: &[Sys], allowed_write_prefixes: &[String], allowed_dirs: &[S
 fn run_session(c: &Session, ctx: &mut CaseCtx) -> Result<Result<(), String>, LspError> {
     let sb = Sandbox::new("c10");
     let trace_file = sb.root.join("trace.txt");
-    let settings_of = |idx: usize| sb.settings(serde_json::from_str(CONFIGS[idx % CONFIGS.len()]).unwrap_or(json!({})));
+    // generation of the dictionary paths the client reports: 0 = the sandbox defaults, 1 = others
+    let alt_user = sb.root.join("dicts2/user2.txt");
+    let alt_files = sb.root.join("filedicts2");
+    let paths_gen = std::cell::Cell::new(0usize);
+    let settings_of = |idx: usize| {
+        let mut extra: Value = serde_json::from_str(CONFIGS[idx % CONFIGS.len()]).unwrap_or(json!({}));
+        if paths_gen.get() == 1 {
+            extra["userDictPath"] = json!(alt_user.to_string_lossy());
+            extra["fileDictPath"] = json!(alt_files.to_string_lossy());
+        }
+        sb.settings(extra)
+    };
+    let link_target = sb.root.join("dotfiles/harper/dictionary.txt");
+    if c.symlinked_user_dict {
+        let io = |e: std::io::Error| LspError::Protocol(e.to_string());
+        std::fs::create_dir_all(link_target.parent().unwrap()).map_err(io)?;
+        std::fs::write(&link_target, "quuxify\n").map_err(io)?;
+        std::fs::create_dir_all(sb.user_dict().parent().unwrap()).map_err(io)?;
+        std::os::unix::fs::symlink("../dotfiles/harper/dictionary.txt", sb.user_dict()).map_err(io)?;
+        ctx.class("user_dictionary_is_a_relative_symbolic_link");
+    }
+    // (word, user dictionary?, generation of the paths in force when it was added)
+    let mut added: Vec<(String, bool, usize)> = vec![];
+    // which generation the server has seen: it learns about a silent change with the next
+    // configuration pull, i.e. the next document update (None = it may or may not have pulled)
+    let mut known: Option<usize> = Some(0);
+    let mut config_idx = 0usize;
     let mut srv = Server::start(&sb, settings_of(0), Some(strace_wrapper(&trace_file, TRACE)))?;
     let mut open = [false; 4];
     let mut texts: Vec<String> = vec![String::new(); 4];
     let (mut saves, mut commands) = (0, 0);
     let mut version = 1;
     for st in &c.steps {
+        // bookkeeping of what the server knows, decided before the step runs
+        let pulls = match st {
+            Step::Open { doc, .. } => !open[*doc as usize % 4],
+            Step::Change { doc, .. } | Step::Save { doc } => open[*doc as usize % 4],
+            Step::Config { .. } | Step::DeepPath { .. } => true,
+            _ => false,
+        };
+        let may_pull = matches!(st, Step::OddUri { .. } | Step::Ignore { .. } | Step::CodeActions { .. } | Step::Record | Step::DeleteFile { .. } | Step::Close { .. });
         match st {
             Step::Open { doc, text } => {
                 let i = *doc as usize % 4;
@@ -237,6 +277,11 @@ fn run_session(c: &Session, ctx: &mut CaseCtx) -> Result<Result<(), String>, Lsp
                 let cmd = if matches!(st, Step::AddUser { .. }) { "HarperAddToUserDict" } else { "HarperAddToFileDict" };
                 let uri = sb.uri(DOCS[i].0);
                 srv.execute_and_publish(cmd, json!([format!("zqword{}", saves), uri]), &uri)?;
+                if let Some(g) = known {
+                    added.push((format!("zqword{}", saves), matches!(st, Step::AddUser { .. }), g));
+                }
+                // the command re-checks the document afterwards, which pulls the configuration
+                known = Some(paths_gen.get());
                 saves += 1;
                 commands += 1;
             }
@@ -264,6 +309,7 @@ fn run_session(c: &Session, ctx: &mut CaseCtx) -> Result<Result<(), String>, Lsp
                         std::fs::write(sb.ws_file(DOCS[i].0), &texts[i]).map_err(|e| LspError::Protocol(e.to_string()))?;
                     }
                 }
+                config_idx = *idx as usize;
                 let settings = settings_of(*idx as usize);
                 srv.settings = settings.clone();
                 let before: Vec<usize> = (0..4).map(|i| srv.publications_for(&sb.uri(DOCS[i].0))).collect();
@@ -326,6 +372,11 @@ fn run_session(c: &Session, ctx: &mut CaseCtx) -> Result<Result<(), String>, Lsp
                 srv.close(&uri)?;
                 ctx.class(if file.as_os_str().len() >= 256 { "document_path_of_256_bytes_or_more" } else { "deep_document_path" });
             }
+            Step::SilentPaths => {
+                paths_gen.set(1 - paths_gen.get());
+                srv.settings = settings_of(config_idx);
+                ctx.class("dictionary_paths_changed_without_notification");
+            }
             Step::DeleteFile { doc } => {
                 let i = *doc as usize % 4;
                 let was = open[i];
@@ -339,6 +390,11 @@ fn run_session(c: &Session, ctx: &mut CaseCtx) -> Result<Result<(), String>, Lsp
                 }
             }
         }
+        if pulls {
+            known = Some(paths_gen.get());
+        } else if may_pull && known != Some(paths_gen.get()) {
+            known = None;
+        }
     }
     srv.shutdown()?;
     let text = std::fs::read_to_string(&trace_file).unwrap_or_default();
@@ -346,16 +402,47 @@ fn run_session(c: &Session, ctx: &mut CaseCtx) -> Result<Result<(), String>, Lsp
     if trace.is_empty() {
         return Err(LspError::Protocol("empty syscall trace".into()));
     }
-    let allowed = vec![
+    let mut allowed = vec![
         sb.user_dict().to_string_lossy().to_string(),
         format!("{}/", sb.file_dict_dir().to_string_lossy()),
         sb.stats().to_string_lossy().to_string(),
+        alt_user.to_string_lossy().to_string(),
+        format!("{}/", alt_files.to_string_lossy()),
     ];
-    let dirs = vec![
+    let mut dirs = vec![
         sb.user_dict().parent().unwrap().to_string_lossy().to_string(),
         sb.file_dict_dir().to_string_lossy().to_string(),
         sb.stats().parent().unwrap().to_string_lossy().to_string(),
+        alt_user.parent().unwrap().to_string_lossy().to_string(),
+        alt_files.to_string_lossy().to_string(),
     ];
+    if c.symlinked_user_dict {
+        // the file the configured dictionary points to is the configured dictionary
+        allowed.push(link_target.to_string_lossy().to_string());
+        dirs.push(link_target.parent().unwrap().to_string_lossy().to_string());
+    }
+    // every added word went to the dictionary configured at that time, and nowhere else
+    let holds = |p: &std::path::Path, w: &str| std::fs::read_to_string(p).map(|t| t.lines().any(|l| l == w)).unwrap_or(false);
+    let dir_holds = |d: &std::path::Path, w: &str| {
+        std::fs::read_dir(d).map(|rd| rd.flatten().any(|e| holds(&e.path(), w))).unwrap_or(false)
+    };
+    for (w, user, generation) in &added {
+        let (here, there): (bool, bool) = if *user {
+            let (a, b) = (holds(&sb.user_dict(), w), holds(&alt_user, w));
+            if *generation == 0 { (a, b) } else { (b, a) }
+        } else {
+            let (a, b) = (dir_holds(&sb.file_dict_dir(), w), dir_holds(&alt_files, w));
+            if *generation == 0 { (a, b) } else { (b, a) }
+        };
+        if !here || there {
+            return Ok(Err(format!(
+                "word {w:?} was added to the {} dictionary while the client reported dictionary paths #{generation}: {} in the dictionary configured then, {} in the other one",
+                if *user { "user" } else { "file" },
+                if here { "found" } else { "missing" },
+                if there { "found" } else { "absent" }
+            )));
+        }
+    }
     let findings = audit(&trace, &allowed, &dirs, false, &crate::lsp::ls_binary().to_string_lossy());
     // the statistics file is written at shutdown
     let wrote_stats = trace.iter().any(|s| s.name.starts_with("open") && s.string_args().first().is_some_and(|p| *p == sb.stats().to_string_lossy()));
@@ -403,6 +490,7 @@ fn step() -> BoxedStrategy<Step> {
         1 => (0u8..4).prop_map(|doc| Step::DeleteFile { doc }),
         2 => (0u8..4, any::<u8>()).prop_map(|(which, text)| Step::OddUri { which, text }),
         2 => (0u8..6, any::<u8>()).prop_map(|(shape, text)| Step::DeepPath { shape, text }),
+        1 => Just(Step::SilentPaths),
     ]
     .boxed()
 }
@@ -706,7 +794,7 @@ fn dependency_scan(run: &mut Run) {
 }
 
 pub fn run(run: &mut Run) {
-    run.rule = "(a) generated harper-ls sessions (4 documents incl. URLs, e-mail addresses and host names; open/change/save/close/delete, AddToUserDict, AddToFileDict, IgnoreLint, RecordLint, codeAction, didChangeConfiguration, shutdown; never HarperOpen) each run under strace -f: no socket/connect/send*/bind/listen, no resolver or TLS files, no exec of another program, and every create/write/rename/unlink/mkdir targets the configured dictionary or statistics paths; documents with odd URIs and documents whose absolute path has 150-400 bytes included; one TCP-mode session (only the 127.0.0.1:4000 listener and its accepted connection) and one TCP-mode start while port 4000 is in use (no listener anywhere else). (b) a worker process pushing generated documents through all front-ends, the harper.js API and statistics export/import under strace: no network syscall and nothing opened for writing. Non-trivial session = >=1 dictionary save, >=1 command and the statistics write at shutdown. Auxiliary (static): cargo metadata closure of harper-ls/harper-cli/harper-wasm scanned against a deny-list of network client crates.".into();
+    run.rule = "(a) generated harper-ls sessions (4 documents incl. URLs, e-mail addresses and host names; open/change/save/close/delete, AddToUserDict, AddToFileDict, IgnoreLint, RecordLint, codeAction, didChangeConfiguration, shutdown; never HarperOpen) each run under strace -f: no socket/connect/send*/bind/listen, no resolver or TLS files, no exec of another program, and every create/write/rename/unlink/mkdir targets the configured dictionary or statistics paths; documents with odd URIs and documents whose absolute path has 150-400 bytes included; in 30% of the sessions the user dictionary is a relative symbolic link (only the link's target may be written, nothing relative to the working directory); the client may start reporting other dictionary paths without a notification, and every added word must be found in the dictionary configured at that time and nowhere else; one TCP-mode session (only the 127.0.0.1:4000 listener and its accepted connection) and one TCP-mode start while port 4000 is in use (no listener anywhere else). (b) a worker process pushing generated documents through all front-ends, the harper.js API and statistics export/import under strace: no network syscall and nothing opened for writing. Non-trivial session = >=1 dictionary save, >=1 command and the statistics write at shutdown. Auxiliary (static): cargo metadata closure of harper-ls/harper-cli/harper-wasm scanned against a deny-list of network client crates.".into();
     run.threads = run.threads.min(6);
     run.max_shrink_iters = 40;
     let n = run.n(16, 200);
@@ -714,11 +802,11 @@ pub fn run(run: &mut Run) {
         "language_server_sessions",
         n,
         || {
-            proptest::collection::vec(step(), 4..16)
-                .prop_map(|mut steps| {
+            (proptest::collection::vec(step(), 4..16), prop::bool::weighted(0.3))
+                .prop_map(|(mut steps, symlinked_user_dict)| {
                     // every session opens something first so that commands have a target
                     steps.insert(0, Step::Open { doc: 1, text: 0 });
-                    Session { steps, tcp: false }
+                    Session { steps, tcp: false, symlinked_user_dict }
                 })
                 .boxed()
         },
@@ -727,6 +815,8 @@ pub fn run(run: &mut Run) {
     run.require_class("language_server_sessions", "dictionary_saved", (n / 2) as u64);
     run.require_class("language_server_sessions", "statistics_written_at_shutdown", (n / 2) as u64);
     run.require_class("language_server_sessions", "document_path_of_256_bytes_or_more", (n / 8) as u64);
+    run.require_class("language_server_sessions", "user_dictionary_is_a_relative_symbolic_link", (n / 8) as u64);
+    run.require_class("language_server_sessions", "dictionary_paths_changed_without_notification", (n / 8) as u64);
     run_library_worker(run);
     tcp_session(run);
     tcp_busy_port_session(run);
